@@ -549,7 +549,7 @@ pub fn f_timeout(thorough: bool) -> Vec<Unit> {
     // BYODS relations computed in one stratum and read in a later one / in the same one
     for u in f_ds(false) {
         if u.sym.is_some() || u.tag.contains("ternary") { continue; }
-        if thorough || u.tag.starts_with("ds-eqrel-binary-clocked-readers-in-later") || u.tag.starts_with("ds-trrel-binary-two-strata-readers-in-recursive") || u.tag.starts_with("ds-trrel_uf-binary-clocked-readers-in-later") || u.tag.starts_with("ds-trrel-binary-clocked-readers-in-later") { out.push(u); }
+        if (thorough && !u.tag.contains("self-feeding")) || u.tag.starts_with("ds-eqrel-binary-clocked-readers-in-later") || u.tag.starts_with("ds-trrel-binary-two-strata-readers-in-recursive") || u.tag.starts_with("ds-trrel_uf-binary-clocked-readers-in-later") || u.tag.starts_with("ds-trrel-binary-clocked-readers-in-later") { out.push(u); }
     }
     for u in out.iter_mut() {
         u.variants.truncate(1);
